@@ -41,8 +41,10 @@ func jmpToOriginFunctionValue(from, to uintptr) (value []byte) {
 		}
 	}
 
+	// `to` is a code address (not a function value): jump to it through an inline
+	// literal, which also leaves rdx (the closure context) untouched
 	return []byte{
-		0x48, 0xBA,
+		0xFF, 0x25, 0x00, 0x00, 0x00, 0x00, // jmp QWORD PTR [rip+0]
 		byte(to),
 		byte(to >> 8),
 		byte(to >> 16),
@@ -50,8 +52,7 @@ func jmpToOriginFunctionValue(from, to uintptr) (value []byte) {
 		byte(to >> 32),
 		byte(to >> 40),
 		byte(to >> 48),
-		byte(to >> 56), // movabs rdx,to
-		0xFF, 0x22,     // jmp QWORD PTR [rdx]
+		byte(to >> 56), // .quad to
 	}
 }
 
